@@ -176,6 +176,12 @@ def check(case):
         any_tie |= tie
         if not np.array_equal(mob, mob_snapshot) or not np.array_equal(fixed, fixed_snapshot):
             raise PropertyViolation("pure", "evaluation modified its input arrays")
+    if rlist:
+        # the named method gives the measure WITHOUT restraints, also on a calculator that was built with some
+        mob0 = np.array(case["evals"][0], float)
+        plain = lib("chi2_molecules", calc.chi2_molecules, mob0)
+        _compare("definition-unrestrained-route", plain, case["fixed"], case["evals"][0], [],
+                 "chi2_molecules() of a calculator built with %d restraints" % len(rlist))
     # metamorphic: common rigid motion, consistent relabelling  (on the first evaluation array)
     rng = np.random.default_rng(case["seed"])
     mob = np.array(case["evals"][0], float)
